@@ -26,8 +26,9 @@ Section Three.
 Variable O : oracles3.
 
 (* ------------------------------------------------------------------ compute3 against compute (two O) *)
-(* the component called for field k raised e (something other than its documented exception) on the value v; for Requires-Dist: on the
-   first entry that is not accepted *)
+(* the ORACLE component called for field k raised e (something other than its documented exception) on the value v; for Requires-Dist: on
+   the first entry that is not accepted.  Four components are oracles; Version, canonicalize_name and pathlib are total in the model
+   (MetaModel3.v header), so they do not occur here. *)
 Definition raised_in (k : list N) (v : option rawv) (e : list N) : Prop :=
   match v with
   | Some (VStr s) => (k = k_requires_python /\ o3_specset O s = ORaise e) \/ (k = k_license_expression /\ o3_lic O s = ORaise e) \/
